@@ -16,6 +16,7 @@ import re
 
 from ..core import rule, AnalysisError
 from ..engine import rx, cfg as cfgmod, flow
+from ..engine import pattern as P
 from ..engine.facts import dotted, const, src, walk_func, str_value, enclosing_stmt, ancestors
 from .common import calls, stmt_nodes, contains
 
@@ -113,15 +114,14 @@ def progress(ctx):
     st = [s for s in walk_func(mr) if isinstance(s, ast.Assign) and dotted(s.targets[0]) == "self.match_position"]
     ctx.require(st, "match_reg does not assign self.match_position")
     v = st[0].value
-    t = src(v).replace(" ", "")
-    forms = {"end+1ifend==startelseend", "endifend!=startelseend+1", "endifend>startelseend+1", "max(end,start+1)", "max(start+1,end)", "end+(end==start)"}
-    ctx.check(t in forms, "advance", db.where(st[0]), "cursor update `%s` does not guarantee strict progress after a match (a zero-width match would loop forever) or skips text" % src(v), src(v))
-    ifs = [a for a in ancestors(st[0]) if isinstance(a, ast.If)]
-    ctx.check(bool(ifs) and src(ifs[0].test) == "match", "advance-only-on-match", db.where(st[0]), "cursor moved without a match", "only when the regex matched")
-    sp = [s for s in walk_func(mr) if isinstance(s, ast.Assign) and "match.span()" in src(s.value)]
-    ctx.check(bool(sp) and src(sp[0].targets[0]).replace(" ", "") in ("(start,end)", "start,end"), "span", db.where(mr), "start/end are not the match span", "start, end = match.span()")
-    mcall = [c for c in walk_func(mr) if isinstance(c, ast.Call) and isinstance(c.func, ast.Attribute) and c.func.attr == "match" and dotted(c.func.value) == "reg"]
-    ctx.check(bool(mcall) and len(mcall[0].args) == 2 and src(mcall[0].args[0]) == "self.text" and src(mcall[0].args[1]) in ("self.match_position", "mp"), "match-at-cursor", db.where(mr), "the regex is not matched at the cursor on self.text", "reg.match(self.text, cursor)")
+    forms = ["$e + 1 if $e == $s else $e", "$e if $e != $s else $e + 1", "$e if $e > $s else $e + 1", "max($e, $s + 1)", "max($s + 1, $e)", "$e + ($e == $s)"]
+    adv = [f for f in forms if P.has(mr, "($s, $e) = $m.span()\n...\nself.match_position = " + f)]
+    ctx.check(bool(adv), "advance", db.where(st[0]), "cursor update `%s` (with start/end = the match span) does not guarantee strict progress after a match (a zero-width match would loop forever) or skips text" % src(v), src(v))
+    ok = P.has(mr, "$m = $r.match(self.text, $p)\nif $m:\n    ...\n    self.match_position = $x\n    ...")
+    ctx.check(ok, "advance-only-on-match", db.where(st[0]), "cursor moved without a match", "only when the regex matched")
+    ctx.check(P.has(mr, "($s, $e) = $m.span()"), "span", db.where(mr), "start/end are not the match span", "start, end = match.span()")
+    ok = P.has(mr, "$m = $r.match(self.text, self.match_position)") or P.has(mr, "$q = self.match_position\n...\n$m = $r.match(self.text, $q)")
+    ctx.check(ok, "match-at-cursor", db.where(mr), "the regex is not matched at the cursor on self.text", "reg.match(self.text, cursor)")
     # parse loop
     loop, casc = cascade(db)
     ctx.require(len(casc) >= 8, "cascade of Lexer.parse has only %d matchers" % len(casc))
@@ -135,9 +135,10 @@ def progress(ctx):
     put = db.func("lexer.Lexer.parse_until_text")
     pl = [n for n in walk_func(put) if isinstance(n, ast.While)]
     ctx.require(pl, "parse_until_text has no loop")
+    mvars = {s.targets[0].id for s in walk_func(put) if isinstance(s, ast.Assign) and isinstance(s.targets[0], ast.Name) and isinstance(s.value, ast.Call) and dotted(s.value.func) == "self.match"}
     for c in [n for n in ast.walk(pl[0]) if isinstance(n, ast.Continue)]:
         ifn = getattr(c, "_parent", None)
-        ok = isinstance(ifn, ast.If) and src(ifn.test) == "match"
+        ok = isinstance(ifn, ast.If) and isinstance(ifn.test, ast.Name) and ifn.test.id in mvars
         ctx.check(ok, "scan.continue@%d" % (conts.index(c) if c in conts else c.lineno - pl[0].lineno), db.where(c), "`continue` in parse_until_text not guarded by `if match`", "guarded by a match")
     ctx.check(isinstance(pl[0].body[-1], ast.Raise), "scan.fallthrough-raises", db.where(pl[0]), "parse_until_text can iterate without consuming", "loop body ends with raise")
 
@@ -185,10 +186,12 @@ def zero_width_consumer(ctx):
         if name == "parse_until_text":
             # (c) accounted by slicing: the scanner returns self.text[startpos : cursor - len(terminator)]
             fn = db.func("lexer.Lexer.parse_until_text")
-            rets = [r for r in walk_func(fn) if isinstance(r, ast.Return)]
-            sl = [n for r in rets for n in ast.walk(r) if isinstance(n, ast.Subscript) and dotted(n.value) == "self.text" and isinstance(n.slice, ast.Slice)]
-            sp = [s for s in fn.body if isinstance(s, ast.Assign) and src(s.targets[0]) == "startpos" and src(s.value) == "self.match_position"]
-            ok = bool(sl) and src(sl[0].slice.lower) == "startpos" and bool(sp) and "self.match_position - len(match.group(1))" in src(sl[0].slice.upper)
+            hits = P.find(fn, "self.text[$sp:self.match_position - len($m.group(1))]")
+            ok = False
+            for node_, env_ in hits:
+                spn = env_["sp"][1]
+                if isinstance(spn, ast.Name) and any(isinstance(s, ast.Assign) and src(s.targets[0]) == spn.id and src(s.value) == "self.match_position" for s in fn.body):
+                    ok = any(isinstance(a_, ast.Return) for a_ in ancestors(node_))
             ctx.check(ok, key, where, "the scanner's fallback can match zero-width (stepping over one character) and the returned span is not the source slice from the saved start: characters are dropped from the expression", "stepped-over character stays inside the returned source slice [startpos : cursor - len(terminator)]")
             continue
         if name == "match_text":
@@ -244,7 +247,10 @@ def _returns_truthy_after_match(fn):
             v = r.value
             if isinstance(v, ast.Constant) and v.value in (False, None):
                 ifn = getattr(r, "_parent", None)
-                ok = isinstance(ifn, ast.If) and ((src(ifn.test) in ("not match",) and r in ifn.body) or (src(ifn.test) == "match" and r in ifn.orelse))
+                mv = {s.targets[0].id for s in walk_func(fn) if isinstance(s, ast.Assign) and isinstance(s.targets[0], ast.Name) and isinstance(s.value, ast.Call) and dotted(s.value.func) in ("self.match", "self.match_reg")}
+                neg = isinstance(ifn, ast.If) and isinstance(ifn.test, ast.UnaryOp) and isinstance(ifn.test.op, ast.Not) and isinstance(ifn.test.operand, ast.Name) and ifn.test.operand.id in mv
+                pos = isinstance(ifn, ast.If) and isinstance(ifn.test, ast.Name) and ifn.test.id in mv
+                ok = (neg and r in ifn.body) or (pos and r in ifn.orelse)
                 if not ok:
                     return False
     return True
@@ -317,15 +323,16 @@ def verbatim_flow(ctx):
             a = c.args[1]
             t = src(a)
             if name == "match_percent":
-                ok = t.replace(" ", "") == "match.group(1)+'%'+match.group(2)"
+                ok = P.has(c, "$m.group(1) + '%' + $m.group(2)")
                 ctx.check(ok, "text:match_percent", db.where(c), "%%%% escape produces %s instead of group(1) + '%%' + group(2)" % t, "leading space + one % + remaining %s")
             else:
                 # a match group, possibly through a local name
-                ok = t.startswith("match.group(") or t == "text"
-                if t == "text":
+                isgroup = lambda e_: isinstance(e_, ast.Call) and isinstance(e_.func, ast.Attribute) and e_.func.attr == "group" and isinstance(e_.func.value, ast.Name) and len(e_.args) == 1 and isinstance(const(e_.args[0]), int)
+                ok = isgroup(a)
+                if isinstance(a, ast.Name):
                     rr = flow.Reaching(fn)
-                    defs = rr.defs_at(enclosing_stmt(c), "text")
-                    ok = all(isinstance(d, ast.Assign) and src(d.value).startswith("match.group(") for d in defs) and bool(defs)
+                    defs = rr.defs_at(enclosing_stmt(c), a.id)
+                    ok = all(isinstance(d, ast.Assign) and isgroup(d.value) for d in defs) and bool(defs)
                 ctx.check(ok, "text:" + name, db.where(c), "Text content `%s` is not a match group taken unchanged from the source" % t, "content is the matched source text")
     ctx.require(n >= 3, "Text creation sites not found (%d)" % n)
     ti = db.func("parsetree.Text.__init__")
@@ -537,16 +544,15 @@ def line_count(ctx):
     mr = db.func("lexer.Lexer.match_reg")
     inc = [s for s in walk_func(mr) if isinstance(s, ast.AugAssign) and dotted(s.target) == "self.lineno"]
     ctx.require(inc, "match_reg does not advance self.lineno")
-    t = src(inc[0].value).replace(" ", "")
-    ctx.check(t in ("self.text[mp:self.match_position].count('\\n')", "self.text[start:self.match_position].count('\\n')"), "lineno-span", db.where(inc[0]),
+    ok = P.has(mr, "$mp = self.match_position\n...\nif $m:\n    ...\n    self.lineno += self.text[$mp:self.match_position].count('\\n')\n    ...") or P.has(mr, "($s, $e) = $m.span()\n...\nself.lineno += self.text[$s:self.match_position].count('\\n')")
+    ctx.check(ok, "lineno-span", db.where(inc[0]),
               "line counter advanced by `%s`, not by the newlines of the consumed span text[old cursor : new cursor]" % src(inc[0].value), "newlines of text[old cursor : new cursor]")
-    mp = [s for s in walk_func(mr) if isinstance(s, ast.Assign) and src(s.targets[0]) == "mp"]
+    mp = [s for s in walk_func(mr) if isinstance(s, ast.Assign) and isinstance(s.targets[0], ast.Name) and src(s.value) == "self.match_position"]
     pos = [s for s in walk_func(mr) if isinstance(s, ast.Assign) and dotted(s.targets[0]) == "self.match_position"]
-    ctx.check(bool(mp) and src(mp[0].value) == "self.match_position" and bool(pos) and mp[0].lineno < pos[0].lineno < inc[0].lineno, "old-cursor-saved", db.where(mr), "the old cursor is not saved before the cursor moves / line count precedes the move", "mp saved, cursor moved, then lines counted")
+    ctx.check(bool(mp) and bool(pos) and mp[0].lineno < pos[0].lineno < inc[0].lineno, "old-cursor-saved", db.where(mr), "the old cursor is not saved before the cursor moves / line count precedes the move", "mp saved, cursor moved, then lines counted")
     ml = [s for s in walk_func(mr) if isinstance(s, ast.Assign) and dotted(s.targets[0]) == "self.matched_lineno"]
     ctx.check(bool(ml) and src(ml[0].value) == "self.lineno" and ml[0].lineno < inc[0].lineno, "matched-lineno", db.where(mr), "matched_lineno is not the line at the start of the match", "matched_lineno = line before advancing")
     # the column: old cursor minus the index of the last newline before it (-1 when there is none)
-    from ..engine import pattern as P
     forms = [
         "$cp = $mp - 1\nif $cp >= 0 and $cp < self.textlength:\n    $cp = self.text[:$cp + 1].rfind('\\n')\nself.matched_charpos = $mp - $cp",
         "$cp = self.text[:$mp].rfind('\\n')\nself.matched_charpos = $mp - $cp",
@@ -569,4 +575,4 @@ def line_count(ctx):
         else:
             ctx.ok("column.last-newline", db.where(mr), "column computation not in a recognised normal form (not decided)")
     cp = [s for s in walk_func(mr) if isinstance(s, ast.Assign) and dotted(s.targets[0]) == "self.matched_charpos"]
-    ctx.check(bool(cp) and src(cp[0].value).replace(" ", "") == "mp-cp", "column", db.where(mr), "column is `%s`" % (src(cp[0].value) if cp else None), "column = old cursor - position of the previous newline")
+    ctx.check(bool(cp) and bool(mp) and isinstance(cp[0].value, ast.BinOp) and isinstance(cp[0].value.op, ast.Sub) and src(cp[0].value.left) == src(mp[0].targets[0]), "column", db.where(mr), "column is `%s`" % (src(cp[0].value) if cp else None), "column = old cursor - position of the previous newline")
